@@ -276,6 +276,10 @@ fn main() {
     if let Some(p) = args.get("jobs-out") {
         write_lines(p, &jobs.iter().map(|j| job_json(j).to_string()).collect::<Vec<_>>());
     }
+    // `--from i --to j`: only that slice of the job list (crash localisation by the driver)
+    let from = (args.u64("from", 0) as usize).min(jobs.len());
+    let to = (args.u64("to", jobs.len() as u64) as usize).min(jobs.len()).max(from);
+    let jobs = &jobs[from..to];
     let threads = args.u64("threads", 8).max(1) as usize;
     let n = jobs.len();
     let chunk = n.div_ceil(threads).max(1);
